@@ -31,6 +31,9 @@ type Fault struct {
 	ID   int    `json:"id"`
 	K    int    `json:"k"`
 	Kind string `json:"kind"` // "error" | "panic" (panics with an error value) | "panic_str"
+	// Arg, when set, replaces K: every invocation of site ID whose argument
+	// renders as Arg fails (schedule-independent fault placement).
+	Arg string `json:"arg,omitempty"`
 }
 
 type StubPlan struct {
@@ -48,6 +51,8 @@ type Op struct {
 	Constants map[string]any `json:"constants,omitempty"`
 	// Reader: instead of a query, call ExecReader(doc, Query)
 	Reader bool `json:"reader,omitempty"`
+	// NoHandlers: do not install the UnReportedErrors / CompletedCallback options
+	NoHandlers bool `json:"no_handlers,omitempty"`
 }
 
 type Client struct {
